@@ -26,6 +26,8 @@
  *                                    after `;` come first on the pending list, in that order, the others follow in birth order
  *   thr <id>* [; <id>*]              the same collection, run by GC_Set itself: registered objects are allocated until the
  *                                    threshold is exceeded (GC_Mark; GC_Sweep)
+ *                                    (a run-time Type object in use among the victims: tried in a forked child first; `exc=UB freed=*`
+ *                                    when the Type is released before, or under, a live object of that type — KF-C19-type-outlived)
  *   exit [; <id>*]                   what the teardown at program exit does from here: a forked child calls exit(0)
  *                                    (atexit: Cello_Exit -> GC_Del -> GC_Sweep with nothing marked) and reports its release
  *                                    ledger from a destructor-attribute function; the parent goes on unchanged
@@ -85,7 +87,7 @@ static var* tab;       /* live handles: lives in main's frame so that the collec
 static size_t cur_line;
 static int n_ops, n_refused, n_births, n_x;
 static int relseq[1 << 16]; static int nrel;      /* the release ledger: ids in the order their blocks were freed */
-static int in_exit_child, exit_pipe = -1, in_kf_child;
+static int in_exit_child, exit_pipe = -1, in_kf_child, in_trial_child;
 
 static var rt_type[MAXRT]; static size_t rt_size[MAXRT]; static int rt_defined[MAXRT];
 static const char* rt_name[MAXRT] = { "RT0","RT1","RT2","RT3","RT4","RT5","RT6","RT7","RT8","RT9","RT10","RT11","RT12","RT13","RT14","RT15" };
@@ -645,6 +647,35 @@ static void run_kf(const char* name) {
     if (exc == NULL) XF("hdr-del-silent", "del of a stack object raised nothing (the object is intact and not freed)");
     return;
   }
+  if (!strncmp(name, "copy-view-", 10)) {
+    /* copy of a view object of src/Iter.c, in a forked child (a refused copy leaves a half-built registered object behind) */
+    const char* vn = name + 10;
+    int v = !strcmp(vn, "Range") ? 1 : !strcmp(vn, "Slice") ? 2 : !strcmp(vn, "Zip") ? 3 : !strcmp(vn, "Filter") ? 4 : !strcmp(vn, "Map") ? 5 : 0;
+    if (!v) { O("bad-op"); return; }
+    int pfd[2]; if (pipe(pfd)) { perror("pipe"); exit(2); }
+    fflush(stdout);
+    pid_t pid = fork();
+    if (pid == 0) {
+      close(pfd[0]); alarm(20); in_kf_child = 1;
+      int devnull = open("/dev/null", 1); if (devnull >= 0) dup2(devnull, 2);
+      var a = new(Array, Int, $I(1), $I(2), $I(3));
+      var x = v == 1 ? new(Range, $I(5)) : v == 2 ? new(Slice, a, $I(1)) : v == 3 ? new(Zip, a, a) :
+              v == 4 ? new(Filter, a, $(Function, flt_fn)) : new(Map, a, $(Function, map_fn));
+      var c = NULL, exc; V_TRY(exc, c = copy(x));
+      char msg[128]; snprintf(msg, sizeof msg, "exc=%s ty=%s cls=%s", v_exc_name(exc), (!exc && c) ? (type_of(c) == type_of(x) ? "same" : "other") : "-", (!exc && c) ? cls_name(cls_of(c)) : "-");
+      if (write(pfd[1], msg, strlen(msg)) < 0) {}
+      _exit(0);
+    }
+    close(pfd[1]);
+    char got[256]; ssize_t r, l = 0; while ((r = read(pfd[0], got + l, sizeof got - 1 - l)) > 0) l += r; got[l] = 0; close(pfd[0]);
+    int st = 0; waitpid(pid, &st, 0);
+    int clean = WIFEXITED(st) && WEXITSTATUS(st) == 0;
+    char ex[64] = "UB"; if (clean) sscanf(got, "exc=%63s", ex);
+    O("kf %s exc=%s", name, ex);
+    if (strcmp(ex, "none")) XF("hdr-copy-view", "copy of a %s object raised %s: no object of the source's type is handed out (and the half-built copy stays registered)", vn, ex);
+    else if (!strstr(got, "ty=same cls=heap")) XF("hdr-type", "copy of a %s object handed out `%s`", vn, got);
+    return;
+  }
   int which = !strcmp(name, "delraw-embedded") ? 1 : !strcmp(name, "tree-odd-key") ? 2 : !strcmp(name, "delraw-embedded-tuple") ? 3 :
               !strcmp(name, "delraw-embedded-array") ? 4 : !strcmp(name, "delraw-stack-box") ? 5 : 0;
   if (!which) { O("bad-op"); return; }
@@ -1193,7 +1224,27 @@ static void do_line(char** lines, size_t n, size_t li, int* recursed) {
     if (A >= MAXH) A = MAXH - 1; if (B >= MAXH) B = MAXH - 1;
     if (!meta[t.id].used) BAD();
     if (!meta[t.id].live) SKIP("dead");
-    if (A == t.id || B == t.id) SKIP("self");
+    if (A == t.id || B == t.id) {
+      /* assign(s, s) of a String: String_Assign returns before its guard (`if (val is s->val) { return; }`, fix 744a45f): whatever
+         the class of s, nothing is raised, nothing changes, nothing is reallocated.  Every other aliasing operand is left out. */
+      if (p == P_ASSIGN && t.kind == 0 && meta[t.id].kind == K_STR && ((struct String*)meta[t.id].addr)->val != NULL) {
+        var x = meta[t.id].addr;
+        describe(before, before + sizeof before, t);
+        char* buf0 = ((struct String*)x)->val;
+        nforb = 0; forb_hits = 0; protect(x, meta[t.id].cap); forbid(buf0, strlen(buf0) + 1, "the characters of a String assigned to itself");
+        expect_begin();
+        V_TRY(exc, assign(x, x));
+        unprotect();
+        describe(after, after + sizeof after, t);
+        O("%s exc=%s %s rel=%s", op, v_exc_name(exc), after, rel_since(nrel0));
+        expect_check(op);
+        if (exc) XF("hdr-self-assign", "assign(s, s) of a %s String raised %s", cls_name(meta[t.id].ecls), v_exc_name(exc));
+        if (strcmp(before, after) || ((struct String*)x)->val != buf0) XF("hdr-self-assign", "assign(s, s) changed the String: `%s` -> `%s`", before, after);
+        oracle_handle(t.id, "after assign(s, s)");
+        return;
+      }
+      SKIP("self");
+    }
     var x; int kind; int cl; size_t cap;
     if (t.kind == 0) { x = meta[t.id].addr; kind = meta[t.id].kind; cl = meta[t.id].ecls; cap = meta[t.id].cap;
       if (kind == K_STR && ((struct String*)x)->val == NULL) SKIP("unsupported"); }
@@ -1277,14 +1328,17 @@ static void do_line(char** lines, size_t n, size_t li, int* recursed) {
     if (is_exit && nv) BAD();
     struct GC* gc = current(GC);
     if (is_exit) {
-      /* a run-time Type object among what the teardown releases: its instances may be finalised after it (not exercised) */
+      /* a registered run-time Type object in use among what the teardown releases: if its slot comes before the slot of one of
+         its instances, that instance is finalised through a released Type (KF-C19-type-outlived) */
+      int type_at_stake = 0;
       for (size_t q = 0; q < gc->nslots; q++) if (gc->entries[q].hash && !gc->entries[q].root) {
-        int id = id_of(gc->entries[q].ptr); if (id >= 0 && (meta[id].kind == K_RTT || meta[id].kind == K_STY)) SKIP("unsupported"); }
+        int id = id_of(gc->entries[q].ptr); if (id >= 0 && meta[id].live && is_type_in_use(id)) type_at_stake = 1; }
       int pfd[2]; if (pipe(pfd)) { perror("pipe"); exit(2); }
       fflush(stdout);
       pid_t pid = fork();
       if (pid == 0) {
         close(pfd[0]); exit_pipe = pfd[1]; in_exit_child = 1; alarm(30);
+        if (type_at_stake) { in_kf_child = 1; int dn = open("/dev/null", 1); if (dn >= 0) dup2(dn, 2); }   /* a crash is reported by the parent as hdr-type-outlived (model and harness must agree on it) */
         /* by the property: every registered object that is not a root is released exactly once, and what those Boxes own */
         nforb = 0; forb_hits = 0; expect_begin();
         for (int id = 0; id < MAXH; id++) if (reg_before[id]) { for (size_t q = 0; q < gc->nslots; q++) if (gc->entries[q].hash && gc->entries[q].ptr == meta[id].addr && !gc->entries[q].root) exp_rel[id] = 1; }
@@ -1297,8 +1351,34 @@ static void do_line(char** lines, size_t n, size_t li, int* recursed) {
       int st = 0; waitpid(pid, &st, 0);
       int clean = WIFEXITED(st) && WEXITSTATUS(st) == 0;
       O("exit exc=%s freed=%s", clean ? "none" : "UB", !clean ? "*" : l ? got : "-");
-      if (!clean) XF("hdr-exit-crash", "the teardown at exit did not complete (child status 0x%x; exit code 97 = AddressSanitizer, 98 = UBSan)", st);
+      if (!clean && type_at_stake) XF("hdr-type-outlived", "the teardown at exit released a run-time Type object before an object of that type and then finalised that object through the released Type (child status 0x%x)", st);
+      else if (!clean) XF("hdr-exit-crash", "the teardown at exit did not complete (child status 0x%x; exit code 97 = AddressSanitizer, 98 = UBSan)", st);
       return;
+    }
+    /* a run-time Type object in use among the victims (the collector does not trace the type pointer of a header, so this is
+       what it finds when nothing else refers to the Type): the collection is first tried in a forked child, which afterwards
+       asks every live object of a released Type for the name of its type.  Clean child: the collection is in contract (the
+       instances were all released before the Type) and is now run for real; otherwise it is KF-C19-type-outlived and the
+       program goes on from the state before it. */
+    if (!in_trial_child) {
+      int trial = 0;
+      for (int k2 = 0; k2 < nv; k2++) if (meta[vict[k2]].used && meta[vict[k2]].live && is_type_in_use(vict[k2])) trial = 1;
+      if (trial) {
+        fflush(stdout); fflush(vout);
+        pid_t pid = fork();
+        if (pid == 0) {
+          in_trial_child = 1; in_kf_child = 1; alarm(60);
+          int devnull = open("/dev/null", 1); if (devnull >= 0) { dup2(devnull, 2); dup2(devnull, 1); }
+          FILE* nul = fopen("/dev/null", "w"); if (nul) vout = nul;
+        } else {
+          int st = 0; waitpid(pid, &st, 0);
+          if (!(WIFEXITED(st) && WEXITSTATUS(st) == 0)) {
+            O("%s exc=UB freed=*", op);
+            XF("hdr-type-outlived", "a collection released a run-time Type object before, or under, a live object of that type: type_of of that object points into the released block (child status 0x%x)", st);
+            return;
+          }
+        }
+      }
     }
     /* what must happen, by the property: registered non-root heap victims are released once, with what their Boxes own; nothing else is touched */
     static char snap[64][400];
@@ -1308,11 +1388,11 @@ static void do_line(char** lines, size_t n, size_t li, int* recursed) {
       if (!m->used || !m->live) continue;
       if (k2 < 64) { Target t = { 0, vict[k2], 0 }; char big[3500]; describe(big, big + sizeof big, t); snprintf(snap[k2], sizeof snap[k2], "%s", big); }
     }
-    /* the victims: registered, not a run-time type in use, not an item of a live tuple; everything else is marked */
+    /* the victims: registered, not an item of a live tuple (a run-time Type in use is a victim like any other); everything else is marked */
     for (size_t q = 0; q < gc->nslots; q++) if (gc->entries[q].hash) {
       int victim = 0;
       for (int k2 = 0; k2 < nv; k2++) if (meta[vict[k2]].used && meta[vict[k2]].live && meta[vict[k2]].addr == gc->entries[q].ptr &&
-          !is_type_in_use(vict[k2]) && !referenced(vict[k2])) {
+          !referenced(vict[k2])) {
         if (!victim) elig[ne++] = vict[k2];
         victim = 1; if (!gc->entries[q].root) { expect[k2] = 1; exp_rel[vict[k2]] = 1; } }
       gc->entries[q].marked = !victim;
@@ -1344,6 +1424,19 @@ static void do_line(char** lines, size_t n, size_t li, int* recursed) {
         Target t = { 0, vict[k2], 0 }; char big[3500]; describe(big, big + sizeof big, t); big[sizeof snap[k2] - 1] = 0;
         if (strcmp(big, snap[k2])) XF("hdr-changed", "a collector run changed object %d, which it does not manage: `%s` -> `%s`", vict[k2], snap[k2], big);
       }
+    }
+    if (in_trial_child) {
+      /* every live object whose run-time Type was released: what is the name of your type? (reads the released block) */
+      volatile size_t sink = 0;
+      for (int id = 0; id < MAXH; id++) if (meta[id].used && meta[id].live && meta[id].addr) {
+        var x = meta[id].addr; var ty = NULL;
+        if (meta[id].kind == K_RTO) ty = type_of(x);
+        else if (meta[id].kind == K_ARR || meta[id].kind == K_LST) ty = iter_type(x);
+        else if (meta[id].kind == K_TAB || meta[id].kind == K_TRE) { ty = val_type(x); int kt = id_of(key_type(x)); if (kt >= 0 && !meta[kt].live) ty = key_type(x); }
+        int t = ty ? id_of(ty) : -1;
+        if (t >= 0 && meta[t].kind == K_RTT && !meta[t].live) sink += strlen(c_str(ty)) + size(ty);
+      }
+      _exit(exc ? 3 : 0);
     }
     O("%s exc=%s freed=%s", op, v_exc_name(exc), rel_since(nrel0));
     oracle_registry();
